@@ -48,70 +48,84 @@ class AwesomeyamlLoader(yaml.Loader):
             ret._source_file = self.context.get_current_file()
         return ret
 
+    def compose_node(self, parent, index):
+        is_alias = self.check_event(yaml.AliasEvent)
+        node = super().compose_node(parent, index)
+        if is_alias:
+            self.__dict__.setdefault('_aliased_nodes', set()).add(id(node)) # (the nodes of a document live as long as it is being constructed)
+        return node
+
+    def construct_document(self, node):
+        try:
+            return super().construct_document(node)
+        finally:
+            self.__dict__.pop('_aliased_nodes', None)
+
     @staticmethod
-    def _make_generator(value, update_fn, unfilled=None):
+    def _make_generator(value, update_fn):
         yield
-        if unfilled is not None:
-            unfilled.pop(id(value), None)
         update_fn(value)
 
     def construct_object(self, node, deep=False, convert=True):
-        # A container which pyyaml constructs lazily (not "deep") is returned empty, together with a generator - queued in
-        # "state_generators" - which fills it later.  Keep track of the values still waiting for that: a yaml node can be
-        # constructed again before it happens - every alias (*name) refers to the node of its anchor - and pyyaml then simply
-        # hands back the same, still empty, value.
-        unfilled = self.__dict__.setdefault('_unfilled_values', {})
+        if convert and isinstance(node, (yaml.SequenceNode, yaml.MappingNode)) and node in self.constructed_objects:
+            # constructed again: every alias (*name) refers to the yaml node of its anchor, and pyyaml hands back what it has made of it
+            # the first time - an untagged container possibly still empty (see below), a container made by a merge-control tag as
+            # the one object for all places
+            known = self.constructed_objects[node]
+            if not isinstance(known, ConfigNode) or known._is_plain_composed():
+                return self._construct_again(node)
+
         queued = len(self.state_generators)
         value = super().construct_object(node, deep=deep)
         if not convert:
             return value
 
-        is_container = isinstance(node, (yaml.SequenceNode, yaml.MappingNode)) and not isinstance(value, ConfigNode)
-        if is_container:
-            if len(self.state_generators) > queued:
-                unfilled[id(value)] = self.state_generators[-1]
-            elif id(value) in unfilled:
-                # constructed again (an alias): fill the value right away, so that the config node created below is complete
-                # like any other child (the exhausted generator does nothing when its turn comes)
-                pending = unfilled.pop(id(value))
-                try:
-                    for _ in pending:
-                        pass
-                except ValueError: # a recursive structure - the value is being filled at this very moment
-                    unfilled[id(value)] = pending
-
         aynode = self._convert(value, node)
 
-        # a plain dict/list which a merge-control tag (!force, !merge, ...) has constructed - pyyaml hands the same object back for every alias
-        is_tagged_container = isinstance(node, (yaml.SequenceNode, yaml.MappingNode)) and value is aynode and aynode._is_plain_composed()
-        if (is_container and value is not aynode) or is_tagged_container:
-            converted = self.__dict__.setdefault('_converted_nodes', {})
-            if id(node) in converted:
-                if is_tagged_container:
-                    # constructed again (an alias): every place gets a container of its own
-                    aynode = copy.deepcopy(aynode)
-                else:
-                    # constructed again (an alias): the new container holds the very nodes which sit in the one created for the anchor
-                    self.__dict__.setdefault('_alias_containers', []).append(aynode)
-            converted[id(node)] = node
-
-        if is_container and value is not aynode and id(value) in unfilled:
-            # created from a value which is still empty: fill the config node once pyyaml has filled the value
-            update_fn = aynode.extend if isinstance(node, yaml.SequenceNode) else aynode.update
-            self.state_generators.append(self._make_generator(value, update_fn, unfilled))
+        if value is not aynode and len(self.state_generators) > queued:
+            # pyyaml constructs untagged containers lazily (unless "deep"): the value is still empty and a generator, queued in
+            # "state_generators", fills it later - after that, fill the config node which has been created from it
+            if isinstance(node, yaml.SequenceNode):
+                self.state_generators.append(self._make_generator(value, aynode.extend))
+            elif isinstance(node, yaml.MappingNode):
+                self.state_generators.append(self._make_generator(value, aynode.update))
 
         return aynode
 
+    def _construct_again(self, node):
+        ''' Plain data below an alias is constructed afresh, as if the text of the anchor had been written in its place: the places
+            share nothing, so merging into one of them - or a tag above one of them - does not show at the others.
+            A dynamic node (!call, !eval, !xref, ...) stays one node in all the places its own alias puts it.
+        '''
+        aliased = self.__dict__.get('_aliased_nodes', ())
 
-    def construct_document(self, node):
-        data = super().construct_document(node)
-        # everything is filled now: give the containers created for aliases their own copies of the children, so that the places
-        # which refer to one yaml node share nothing below them (merging into one of them must not change the others)
-        for aynode in self.__dict__.pop('_alias_containers', []):
-            for name, child in list(aynode.ayns.named_children()):
-                aynode[name] = copy.deepcopy(child)
-        self.__dict__.pop('_converted_nodes', None)
-        return data
+        def shared(n):
+            known = self.constructed_objects.get(n)
+            return isinstance(known, ConfigNode) and not known._is_plain_composed() and id(n) in aliased # a dynamic node with an alias of its own
+
+        below = []
+        def collect(n):
+            if n in self.constructed_objects and shared(n):
+                return
+            below.append(n)
+            if isinstance(n, yaml.SequenceNode):
+                for child in n.value:
+                    collect(child)
+            elif isinstance(n, yaml.MappingNode):
+                for key, child in n.value:
+                    collect(key)
+                    collect(child)
+
+        collect(node)
+        forgotten = { n: self.constructed_objects.pop(n) for n in below if n in self.constructed_objects }
+        try:
+            return self.construct_object(node, deep=True)
+        finally:
+            # what has been made for this place is not handed out again, the other places keep what they had
+            for n in below:
+                if n in self.constructed_objects and not shared(n):
+                    del self.constructed_objects[n]
+            self.constructed_objects.update(forgotten)
 
 
 class AwesomeyamlDumper(yaml.Dumper):
